@@ -308,7 +308,7 @@ func (w *World) structUpdate(si *StructInfo, x string, k int, v string) string {
 		if i == k {
 			fs[i] = v
 		} else {
-			fs[i] = app(selName(si, i), x)
+			fs[i] = selApp(si, i, x)
 		}
 	}
 	return w.mkStruct(si, fs)
@@ -531,4 +531,16 @@ func (w *World) structDecls(used func(string) bool) string {
 		emit(n)
 	}
 	return sb.String()
+}
+
+// selApp applies a field selector, simplifying selection from a constructor application.
+func selApp(si *StructInfo, k int, x string) string {
+	p := "(mk_" + si.Sort + " "
+	if strings.HasPrefix(x, p) && balancedOne(x) {
+		args := splitArgs(x[len(p) : len(x)-1])
+		if len(args) == len(si.Fields) {
+			return args[k]
+		}
+	}
+	return app(selName(si, k), x)
 }
